@@ -158,6 +158,9 @@ def run(prop: str, tier: str) -> int:
         run_items(rep, prop, typed_ids if not quick else typed_ids[::2], "dataclass+typed", quick, "typed-ids-objects")
         run_items(rep, prop, typed if not quick else typed[::3], "dataclass+typed", quick, "typed-objects")
         run_items(rep, prop, plain if not quick else plain[::3], "ustr", quick, "unicode")
+        if prop == "C05":
+            # a tree with an id callback: the ids are not hash(data) and must come back from the file
+            run_items(rep, prop, plain if not quick else plain[2::3], "strcb", quick, "id-callback")
         # falsy data objects (the empty string) rebuilt by the mappers
         run_items(rep, prop, plain if not quick else plain[1::3], "estr", quick, "empty-string")
         run_items(rep, prop, typed if not quick else typed[1::3], "estr+typed", quick, "typed-empty-string")
